@@ -365,8 +365,9 @@ class Ctx:
         ev = {"property_id": self.pid, "tier": self.tier, "seed": self.seed, "level": level,
               "coverage": cov, "assumptions": self.assumptions, "wall_s": round(time.time() - self.t0, 1),
               "violations": nviol}
-        EVID.mkdir(exist_ok=True)
-        (EVID / (self.pid + ".json")).write_text(json.dumps(ev, indent=1, default=str))
+        evdir = EVID if not self.pid.startswith("X") else OUT / "evidence_extra"      # X...: growth checks outside the listed properties
+        evdir.mkdir(exist_ok=True)
+        (evdir / (self.pid + ".json")).write_text(json.dumps(ev, indent=1, default=str))
         shutil.rmtree(self.work, ignore_errors=True)
         print("%s %s: states=%d transitions=%d replayed/validated=%d evaluations=%d known=%d violations=%d wall=%.0fs" % (
             self.pid, self.tier, cov["states"], cov["transitions"], cov["traces_validated_against_impl"],
